@@ -20,6 +20,8 @@ namespace {
         uint64_t pay = 0;
         Val() {}
         explicit Val( int64_t u ) : uid( u ), pay( mix64( uint64_t( u ))) {}
+        Val( Val const& o ) { payload_copy( reinterpret_cast<uint64_t*>( this ), reinterpret_cast<uint64_t const*>( &o ), 2 ); }
+        Val& operator=( Val const& o ) { payload_copy( reinterpret_cast<uint64_t*>( this ), reinterpret_cast<uint64_t const*>( &o ), 2 ); return *this; }
         bool good() const { return pay == mix64( uint64_t( uid )); }
     };
 
